@@ -678,6 +678,18 @@ class SymExec:
                 for sub in walk(v):
                     if sub[0] == "ref" and sub[2]:
                         L = sub[1]
+                        oldL = self.read(st, L)
+                        # a closure that captured `&mut r` where r is itself a `&mut T` (a reference
+                        # parameter used inside the closure) can write *r: that pointee is clobbered too
+                        for _ in range(3):
+                            lty = self.loc_ty(L)
+                            if lty is None or lty.k != "ref" or not lty.d.get("mut"):
+                                break
+                            P = oldL[1] if oldL[0] == "ref" else ("deref", oldL)
+                            oldP = self.read(st, P)
+                            self.write(st, P, ("after", callterm, i, oldP))
+                            L, oldL = P, oldP
+                        L = sub[1]
                         self.write(st, L, ("after", callterm, i, self.read(st, L)))
         self.write(st, dest, callterm)
         return {"k": "call", "name": name, "args": snap, "locargs": args, "term": callterm, "inlined": False, "ret": callterm, "site": site, "dest": dest}
